@@ -39,7 +39,7 @@ ASSUMPTIONS = [
     "library connections are opened with timeout=0 (sqlite3 proxy) so that SQLITE_BUSY surfaces at once instead of after 5 real seconds",
 ]
 EXPECTED_PROBES = ["observer-look", "observer-saw-pending-hidden", "crash-snapshot", "snapshot-hot-journal", "busy-commit", "busy-released-retry-ok", "holder-is-sqlitereader",
-                   "schema-gained-column", "second-batch-size", "sql-keyword-name", "int64-boundary", "second-writer-session", "descriptors-touched"]  # fmt: skip
+                   "schema-gained-column", "second-batch-size", "sql-keyword-name", "int64-boundary", "second-writer-session", "descriptors-touched", "with-block-left-by-exception"]  # fmt: skip
 
 TABLE_NAMES = ["t/a", "select", "Mixed/Case_1", "x", "order/by", "group", "a/b/c", "table", "index/from", "sqlite3/journal", "sqlitex/y_", "SQLiteWal/frame", "main/temp",
                "a_b", "T1/t_2", "pragma", "rowid/oid", "u__v"]
@@ -167,7 +167,8 @@ def generate(rng, tier, index):
                     holding = False
     if holding and rng.random() < 0.6:
         ops.append({"op": "release"})
-    ops.append({"op": "close"})
+    # the export ends by close(), or by leaving a with-block - normally or because the record source raised
+    ops.append({"op": "close", "how": rng.choice(["close", "close", "exit", "raise_exit"])})
     return {"batch": batch, "alt_batch": alt, "pool": pool, "ops": ops, "mode": mode}
 
 
@@ -265,7 +266,7 @@ class Workload:
                         w.probe("second-writer-session")
                         w.log(self.tag, "reopen")
             elif k == "close":
-                self.do_close()
+                self.do_close(op.get("how", "close"))
             elif not self.looks:
                 continue
             elif k == "observe":
@@ -354,10 +355,18 @@ class Workload:
             # refused with SQLITE_BUSY: the row may or may not be part of the open transaction
             self.rows.append((name, cells, True))
 
-    def do_close(self):
+    def do_close(self, how="close"):
         if self.closed:
             return
-        ok = self.call("close", self.writer.close, commits=True)
+        if how == "exit":
+            fn = lambda: self.writer.__exit__(None, None, None)  # noqa: E731
+        elif how == "raise_exit":
+            exc = RuntimeError("the record source failed")
+            fn = lambda: self.writer.__exit__(RuntimeError, exc, None)  # noqa: E731
+            self.w.probe("with-block-left-by-exception")
+        else:
+            fn = self.writer.close
+        ok = self.call("close", fn, commits=True)
         if not ok and self.holder is not None:
             # liveness once the fault stops: release, then one retry must succeed
             self.release()
